@@ -37,9 +37,11 @@ import (
 	"fmt"
 	"io"
 	"net"
+	"os"
 	"strconv"
 	"strings"
 	"sync"
+	"sync/atomic"
 	"time"
 
 	"github.com/tjfoc/gmsm/gmtls"
@@ -87,6 +89,9 @@ type item struct {
 	frag []int
 	join bool
 	r    rec
+	// stall (last item only): r is the START of a record - header announcing r.lenOv bytes, r.payload the part of the
+	// body that arrives - after which the peer stays silent with the connection open
+	stall bool
 }
 
 func hsItem(spec string, muts ...string) item { return item{spec: spec, muts: muts} }
@@ -98,6 +103,9 @@ func rawItem(typ int, payload []byte) item {
 }
 
 func (it item) enc() string {
+	if it.stall {
+		return fmt.Sprintf("Z%d,%d,%s", it.r.typ, it.r.lenOv, hx.Hex(it.r.payload))
+	}
 	if it.raw {
 		v, l := "n", "n"
 		if it.r.vers >= 0 {
@@ -165,6 +173,19 @@ func decItems(s string) []item {
 			}
 			it.r.payload = hx.UnHex(p[3])
 			out = append(out, it)
+		case 'Z':
+			p := strings.Split(f[1:], ",")
+			if len(p) != 3 {
+				panic("bad stall item " + f)
+			}
+			it := item{raw: true, stall: true, r: rec{vers: -1}}
+			it.r.typ, _ = strconv.Atoi(p[0])
+			it.r.lenOv, _ = strconv.Atoi(p[1])
+			it.r.payload = hx.UnHex(p[2])
+			if it.r.lenOv <= len(it.r.payload) {
+				panic("stall item announces no more than it delivers: " + f)
+			}
+			out = append(out, it)
 		case 'H':
 			p := strings.Split(f[1:], "!")
 			it := item{spec: p[0]}
@@ -189,7 +210,17 @@ func decItems(s string) []item {
 			panic("bad item " + f)
 		}
 	}
+	for i, it := range out {
+		if it.stall && i != len(out)-1 {
+			panic("stall item must be the last item: " + s)
+		}
+	}
 	return out
+}
+
+// stallItem: header of a record of type typ announcing n body bytes, of which only part arrive; then silence, connection open.
+func stallItem(typ, n int, part []byte) item {
+	return item{raw: true, stall: true, r: rec{typ: typ, vers: -1, lenOv: n, payload: part}}
 }
 
 // ---------------------------------------------------------------------------------------------
@@ -751,6 +782,44 @@ type sconn struct {
 	written []byte
 	sent    []rec // what was served (self check)
 	reads   int
+	// stall scripts: when the script is used up the peer neither sends nor closes; Read then behaves like a real
+	// net.Conn with a read deadline (blocks until it, then a timeout net.Error - at once if the deadline has passed)
+	stall    bool
+	mu       sync.Mutex
+	deadline time.Time
+	closed   int32
+}
+
+var errStallTimeout error = &net.OpError{Op: "read", Net: "tcp", Addr: dummyAddr, Err: os.ErrDeadlineExceeded}
+
+func (c *sconn) waitStalled() (int, error) {
+	for {
+		if atomic.LoadInt32(&c.closed) != 0 {
+			return 0, io.ErrClosedPipe
+		}
+		c.mu.Lock()
+		d := c.deadline
+		c.mu.Unlock()
+		if !d.IsZero() && !time.Now().Before(d) {
+			return 0, errStallTimeout
+		}
+		w := 5 * time.Millisecond
+		if !d.IsZero() {
+			if r := time.Until(d); r < w {
+				w = r
+			}
+		}
+		if w > 0 {
+			time.Sleep(w)
+		}
+	}
+}
+
+func (c *sconn) setDeadline(t time.Time) error {
+	c.mu.Lock()
+	c.deadline = t
+	c.mu.Unlock()
+	return nil
 }
 
 var dummyAddr = &net.TCPAddr{IP: net.IPv4(127, 0, 0, 1), Port: 4433}
@@ -759,6 +828,9 @@ func (c *sconn) Read(p []byte) (int, error) {
 	c.reads++
 	for len(c.pending) == 0 {
 		if c.idx >= len(c.items) {
+			if c.stall {
+				return c.waitStalled()
+			}
 			return 0, io.EOF
 		}
 		recs, n := c.x.renderItems(c.items, c.idx)
@@ -778,8 +850,8 @@ func (c *sconn) Write(p []byte) (int, error) {
 func (c *sconn) Close() error                       { return nil }
 func (c *sconn) LocalAddr() net.Addr                { return dummyAddr }
 func (c *sconn) RemoteAddr() net.Addr               { return dummyAddr }
-func (c *sconn) SetDeadline(t time.Time) error      { return nil }
-func (c *sconn) SetReadDeadline(t time.Time) error  { return nil }
+func (c *sconn) SetDeadline(t time.Time) error      { return c.setDeadline(t) }
+func (c *sconn) SetReadDeadline(t time.Time) error  { return c.setDeadline(t) }
 func (c *sconn) SetWriteDeadline(t time.Time) error { return nil }
 
 func newVictim(role string, c vcfg, conn net.Conn) *gmtls.Conn {
@@ -791,6 +863,7 @@ func newVictim(role string, c vcfg, conn net.Conn) *gmtls.Conn {
 }
 
 const sDeadline = 3 * time.Second
+const stallDeadline = 250 * time.Millisecond
 
 // runScript runs one S case; detail carries the error text (debugging only).
 func runScript(role string, c vcfg, items []item) (res, detail string, conn *sconn) {
@@ -799,9 +872,20 @@ func runScript(role string, c vcfg, items []item) (res, detail string, conn *sco
 	x.written = func() []byte { return conn.written }
 	v := newVictim(role, c, conn)
 	errText := ""
+	if n := len(items); n > 0 && items[n-1].stall {
+		// the peer will go silent in the middle of a record with the connection open: the victim has a short deadline and
+		// Handshake() must come back with an error soon after it; a victim that keeps going is reported as HANG by the
+		// guard, and the connection is then closed under it so that its goroutine ends
+		conn.stall = true
+		v.SetDeadline(time.Now().Add(stallDeadline))
+		defer atomic.StoreInt32(&conn.closed, 1)
+	}
 	res, detail = hx.Guard(sDeadline, func() string {
 		if err := v.Handshake(); err != nil {
 			errText = err.Error()
+			return "err"
+		}
+		if !v.ConnectionState().HandshakeComplete {
 			return "err"
 		}
 		return "ok"
@@ -999,6 +1083,9 @@ func (t *tokenizer) feed(recs []rec) {
 func abstractOf(role string, c vcfg, items []item) string {
 	t := &tokenizer{x: newCtx(role, c, items, true)}
 	for i := 0; i < len(items); {
+		if items[i].stall {
+			break // the record is never completed: to the state machine the stream ends here
+		}
 		recs, n := t.x.renderItems(items, i)
 		i += n
 		t.feed(recs)
